@@ -90,6 +90,13 @@ Theorem c08_h2_reader_loop_refuted_before_repair :
   (exists f n st, read_frame_gen true true true fs_new h2_loop_witness = ROk f n st).
 Proof. split; [vm_compute; reflexivity | do 3 eexists; vm_compute; reflexivity]. Qed.
 
+(* the HTTP/2 client refuses SETTINGS values outside the RFC ranges (read from MClientConn.processSettings):
+   the flow-control theorems of C18 assume SETTINGS_MAX_FRAME_SIZE in 2^14..2^24-1; before the repair a peer
+   could send 0 (request senders spin forever) or 2^31 (sender panics) - reproduced by `vh-h2 c08`
+   (signature h2conn:client-sender-wedged-by-invalid-max-frame-size) *)
+Theorem c08_h2_client_settings_validated : h2_client_settings_validated = true.
+Proof. exact (eq_refl true). Qed.
+
 Example c08_h2_example :
   (* a frame header announcing 2^20 bytes with 3 present: again; 2^20+1: connection error, nothing read *)
   read_frame fs_new ([16;0;0;0;0;0;0;0;1] ++ [1;2;3]) = RAgain /\
